@@ -66,7 +66,7 @@ theorem step_children {s s' : State} {e : Event} (hs : step s e = .ok s') (p c :
   -- nsync_note_free adopts / drops a child
   all_goals (try (
     simp only [setPc_notes, link_f_children, eraseChild_f_children, clearParent_f_children,
-      acquire_f_children] at hc
+      acquire_f_children, setAdopted_f_children] at hc
     first
       | (split at hc
          · next hp =>
@@ -124,7 +124,8 @@ theorem step_parent {s s' : State} {e : Event} (hs : step s e = .ok s') (p c : N
     · left; exact hc))
   -- nsync_note_free adopts a child
   all_goals (try (
-    simp only [setPc_notes, link_f_parent, eraseChild_f_parent, acquire_f_parent] at hc
+    simp only [setPc_notes, link_f_parent, eraseChild_f_parent, acquire_f_parent,
+      setAdopted_f_parent] at hc
     split at hc
     · next hp =>
       subst hp
